@@ -290,7 +290,10 @@ pub fn run(inp: &Input) -> Option<Obs> {
             let r = if op == "dt_set_offset" { v.set_offset(o) } else { v.as_offset(o) };
             let g = match r.get_offset() { Offset::Fixed(x) => x as i128, Offset::Local => ERR_SENTINEL };
             let (d, n, off) = dt_parts(&r);
-            Obs::Ok(vec![d, n, off, g], vec![])
+            if op == "dt_set_offset" {
+                // the instant is unchanged: ordering, equality, timestamp and differences against the original
+                Obs::Ok(vec![d, n, off, g, ord(r.cmp(&v)), (r == v) as i128, (r.timestamp() - v.timestamp()) as i128, r.nanos_since(&v)], vec![])
+            } else { Obs::Ok(vec![d, n, off, g], vec![]) }
         }
         "time_set_offset" | "time_as_offset" => {
             let v = match mk_time(i[0], i[1]) { Some(v) => v, None => return UNCONSTRUCTIBLE };
